@@ -28,6 +28,8 @@ pub enum Case {
     Files { files: Vec<(String, Content)>, placement_seed: u64 },
     /// `count` tiny files named by their index (count limit of the format: 65535)
     Many { count: u32, size: u8 },
+    /// reference-built image only: bodies of `mib` MiB in total first, the name table after them (name offsets >= 16 MiB)
+    NamesAfterBigBodies { mib: u8 },
 }
 
 fn files_of(c: &Case) -> Vec<(String, Vec<u8>)> {
@@ -42,6 +44,7 @@ fn files_of(c: &Case) -> Vec<(String, Vec<u8>)> {
             out
         }
         Case::Many { count, size } => (0..*count).map(|i| (format!("f{i:05}.bin"), vec![(i % 251) as u8; *size as usize])).collect(),
+        Case::NamesAfterBigBodies { mib } => vec![("big.bin".to_string(), vec![0x5A; (*mib as usize) << 20]), ("\u{FF71}.cmp".to_string(), vec![1, 2, 3]), ("last".to_string(), vec![])],
     }
 }
 
@@ -135,7 +138,7 @@ impl Prop for C15 {
     const ID: &'static str = "C15";
     fn rule() -> String {
         "Ordered maps of 0..=12 distinct Shift-JIS-lossless names (empty name, half-width kana, kanji with ASCII-looking trail bytes weighted) to contents with lengths from {0,1,31,32,33,63,64,65, random <= 600}; plus files of 65535 and 4097 tiny \
-         entries and a few >= 64 KiB bodies. Oracle: parse(serialize(m)) == m including order; an independent reader of the image checks the magic, count = number of files, every recorded name offset points at the NUL-terminated Shift-JIS name inside the file, \
+         entries a few >= 64 KiB bodies, and a reference-built image whose name table lies behind 17 MiB of bodies. Oracle: parse(serialize(m)) == m including order; an independent reader of the image checks the magic, count = number of files, every recorded name offset points at the NUL-terminated Shift-JIS name inside the file, \
          every (address, size) is exact and inside the file, address % 32 == 0; a reference builder produces a second conforming image of the same files (names before / after / between bodies, bodies in any order, gaps, arbitrary unknown fields, bodies 32-aligned) \
          and parse must return the same files. Non-trivial: >= 2 files with at least one length not a multiple of 32 or empty, or a non-ASCII name. Distinct = distinct case value."
             .into()
@@ -147,7 +150,7 @@ impl Prop for C15 {
         true
     }
     fn random_cases(tier: Tier) -> u64 {
-        tier.pick(8_000, 3_000_000)
+        tier.pick(40_000, 3_000_000)
     }
     fn strategy(tier: Tier) -> BoxedStrategy<Case> {
         let big = tier.pick(600u32, 70_000);
@@ -161,7 +164,7 @@ impl Prop for C15 {
         (proptest::collection::vec((name, content), 0..=12), any::<u64>()).prop_map(|(files, placement_seed)| Case::Files { files, placement_seed }).boxed()
     }
     fn enumerate(tier: Tier, shard: u64, nshards: u64, f: &mut dyn FnMut(Case) -> bool) {
-        let mut cases = vec![Case::Files { files: vec![], placement_seed: 1 }, Case::Many { count: 65535, size: 1 }, Case::Many { count: tier.pick(4097, 30000), size: 3 }, Case::Many { count: 300, size: 0 }, Case::Many { count: 1, size: 32 }];
+        let mut cases = vec![Case::Files { files: vec![], placement_seed: 1 }, Case::Many { count: 65535, size: 1 }, Case::Many { count: tier.pick(4097, 30000), size: 3 }, Case::Many { count: 300, size: 0 }, Case::Many { count: 1, size: 32 }, Case::NamesAfterBigBodies { mib: 17 }];
         // every pair of lengths around the 32-byte boundary, ASCII and non-ASCII names
         for a in [0u32, 1, 31, 32, 33] {
             for b in [0u32, 31, 32, 33, 64] {
@@ -237,8 +240,39 @@ impl Prop for C15 {
         let seed = match case {
             Case::Files { placement_seed, .. } => *placement_seed,
             Case::Many { count, .. } => *count as u64,
+            Case::NamesAfterBigBodies { mib } => *mib as u64,
         };
-        let alt = ref_build(&files, seed);
+        let alt = if let Case::NamesAfterBigBodies { .. } = case {
+            // bodies first, then all names: name offsets beyond 16 MiB
+            let header = 8 + 16 * files.len();
+            let mut img = vec![0u8; header];
+            let mut fa = Vec::new();
+            for (_, c) in &files {
+                while img.len() % 32 != 0 {
+                    img.push(0);
+                }
+                fa.push(img.len() as u32);
+                img.extend_from_slice(c);
+            }
+            let mut na = Vec::new();
+            for (n, _) in &files {
+                na.push(img.len() as u32);
+                img.extend_from_slice(&sjis_encode(n).unwrap());
+                img.push(0);
+            }
+            img[0..4].copy_from_slice(b"pack");
+            img[4..6].copy_from_slice(&(files.len() as u16).to_be_bytes());
+            for i in 0..files.len() {
+                let o = 8 + 16 * i;
+                img[o + 4..o + 8].copy_from_slice(&na[i].to_be_bytes());
+                img[o + 8..o + 12].copy_from_slice(&fa[i].to_be_bytes());
+                img[o + 12..o + 16].copy_from_slice(&(files[i].1.len() as u32).to_be_bytes());
+            }
+            cx.label("name-offsets>=16MiB");
+            img
+        } else {
+            ref_build(&files, seed)
+        };
         match cx.call(|| fe9_arc::parse(&alt)) {
             Some(Ok(back)) => {
                 if !same(cx, "parse(reference-built image)", &back, &files) {
